@@ -783,6 +783,16 @@ def _iter_unused_names(
                 remainder = sequence[i + 1 :]
                 if isinstance(node, (ast.For, ast.While)):
                     remainder.extend(sequence[:i])
+                else:
+                    # A function that is defined before may read the name when it is called later
+                    remainder.extend(
+                        earlier
+                        for earlier in sequence[:i]
+                        if any(
+                            core.walk(
+                                earlier, (ast.FunctionDef, ast.AsyncFunctionDef, ast.Lambda)
+                        ))
+                    )
                 _, node_created, _ = tracing.code_dependencies_outputs([node])
                 subsequent_created, _, subsequent_required = tracing.code_dependencies_outputs(
                     remainder
